@@ -3,7 +3,7 @@ import gzip
 import itertools
 import json
 
-from harness.common import assume_nested_or_disjoint, sand, sor, snot
+from harness.common import precalls, assume_nested_or_disjoint, sand, sor, snot
 from symx import tracegen as TG
 from symx.engine import site, smax
 
@@ -21,7 +21,7 @@ BOUNDS = {
              "unlinked kernel), symbolic Int ts (all equalities reachable), adversarial sort ties; bandwidth family: "
              "1..2 memory copies over 3 copy types, symbolic Int ts/dur (dur may be 0) and symbolic real bandwidth >= 0; "
              "counter events checked on every path",
-    "thorough": "queue family up to 4 pairs; bandwidth family up to 3 copies; 2-rank request",
+    "thorough": "queue family: all words up to 3 pairs (adversarial tie orders) and 4 of the 8 words of 4 pairs (stable ties); bandwidth family: all words up to 2 copies and 4 of the 10 words of 3 copies; 2-rank request",
 }
 EXPLANATION = ("Real TraceAnalysis.get_queue_length_time_series / get_memory_bw_time_series / "
                "generate_trace_with_counters (TraceCounters._get_queue_length_time_series_for_rank, "
@@ -57,13 +57,20 @@ def skeletons(tier):
                 tm = "adversarial" if n <= (2 if tier == "quick" else 3) else "stable"
                 if tier == "quick" and n == 3 and w not in ("aaa", "aab"):
                     continue
+                if n == 4 and w not in ("aaaa", "aabb", "abab", "abba"):      # sized to the thorough budget
+                    continue
                 out.append({"id": f"q-{w}-ul{int(ul)}-uk{int(uk)}", "fam": "queue", "word": w,
                             "params": {"ul": ul, "uk": uk, "nranks": 1, "tie_mode": tm}})
     maxm = 2 if tier == "quick" else 3
     for m in range(1, maxm + 1):
         for w in itertools.combinations_with_replacement("DHS", m):
+            if m == 3 and "".join(w) not in ("DDD", "DHS", "HHS", "SSS"):     # sized to the thorough budget
+                continue
             out.append({"id": "bw-" + "".join(w), "fam": "bw", "word": "".join(w), "params": {"nranks": 1},
                         "vars": {f"c{i}_bw": ["real", 0, None] for i in range(m)}})
+    for pre in ("launch", "idle", "temporal"):
+        out.append({"id": f"q-aa-after-{pre}", "fam": "queue", "word": "aa",
+                    "params": {"ul": False, "uk": False, "nranks": 1, "tie_mode": "stable", "pre": [pre]}})
     if tier == "thorough":
         out.append({"id": "q-ab-r2", "fam": "queue", "word": "ab", "params": {"ul": False, "uk": False, "nranks": 2}})
     return out
@@ -123,6 +130,7 @@ def run(ctx):
     written = {}
     if ctx.mode == "sym":
         ta.t.write_raw_trace = lambda f, content: written.__setitem__(f, content)
+    precalls(ctx, ta)
     ql = ta.get_queue_length_time_series(ranks)
     bw = ta.get_memory_bw_time_series(ranks)
     nontriv = False
